@@ -358,7 +358,76 @@ func TestExample(t *testing.T) {
 	rapid.Check(t, func(t *rapid.T) {
 		var c Case
 		feature := false
-		switch rapid.IntRange(0, 5).Draw(t, "family") {
+		switch rapid.IntRange(0, 7).Draw(t, "family") {
+		case 6: // types the root knows only through other types (they were added to a type, not to the root)
+			id := lib.Named{Name: "@id", Text: rapid.SampledFrom([]string{"1 // {min: 1}", "\"abc\" // {minLength: 2}", "\"kab\" // {regex: \"^k\"}"}).Draw(t, "innerId")}
+			base := lib.Named{Name: "@base", Text: "{\n  \"created\": \"2021-01-01\", // {type: \"date\"}\n  \"by\": @id // {optional: true}\n}", Inner: []lib.Named{id}}
+			pet := lib.Named{Name: "@pet", Text: "{\n  \"id\": @id,\n  \"tags\": [@id]\n}", Inner: []lib.Named{id}}
+			root := "{\n  \"pet\": @pet\n}"
+			switch rapid.IntRange(0, 3).Draw(t, "innerShape") {
+			case 1: // two levels
+				owner := lib.Named{Name: "@owner", Text: "{\n  \"pets\": [@pet],\n  @id: 1 // {optional: true}\n}", Inner: []lib.Named{pet, id}}
+				c = Case{Spec: lib.Spec{Schema: "[@owner]", Types: []lib.Named{owner}}}
+			case 2: // through an allOf parent
+				pet.Text = "{ // {allOf: \"@base\"}\n  \"id\": @id\n}"
+				pet.Inner = []lib.Named{id, base}
+				c = Case{Spec: lib.Spec{Schema: root, Types: []lib.Named{pet}}}
+			case 3: // the root inherits from a type that brings its own types
+				c = Case{Spec: lib.Spec{Schema: "{ // {allOf: \"@base\"}\n  \"n\": 1\n}", Types: []lib.Named{base}}}
+			default:
+				c = Case{Spec: lib.Spec{Schema: root, Types: []lib.Named{pet}}}
+			}
+			feature = true
+			run.Label("family:types-known-through-types")
+		case 7: // many expansions of user types in one example: wide objects, sheets, families of types
+			var b strings.Builder
+			types := []lib.Named{{Name: "@id", Text: "1 // {min: 0}"}, {Name: "@cell", Text: "{\n  \"v\": @id,\n  \"note\": \"n\" // {optional: true}\n}"}}
+			switch rapid.IntRange(0, 2).Draw(t, "manyShape") {
+			case 0: // a flat object with n references, the last ones required like the first
+				n := rapid.IntRange(900, 1500).Draw(t, "nRefs")
+				b.WriteString("{\n")
+				for i := 0; i < n; i++ {
+					fmt.Fprintf(&b, "  \"p%d\": @id", i)
+					if i < n-1 {
+						b.WriteString(",")
+					}
+					b.WriteString("\n")
+				}
+				b.WriteString("}")
+			case 1: // a sheet: rows of cells
+				rows, cols := rapid.IntRange(20, 45).Draw(t, "rows"), rapid.IntRange(20, 35).Draw(t, "cols")
+				b.WriteString("[\n")
+				for r := 0; r < rows; r++ {
+					b.WriteString("  [")
+					for k := 0; k < cols; k++ {
+						if k > 0 {
+							b.WriteString(", ")
+						}
+						b.WriteString("@cell")
+					}
+					b.WriteString("]")
+					if r < rows-1 {
+						b.WriteString(",")
+					}
+					b.WriteString("\n")
+				}
+				b.WriteString("]")
+			default: // a family of mutually (optionally) recursive types, each ending in a required reference
+				k := rapid.IntRange(3, 4).Draw(t, "familySize")
+				for i := 0; i < k; i++ {
+					var tb strings.Builder
+					tb.WriteString("{\n")
+					for j := 0; j < k; j++ {
+						fmt.Fprintf(&tb, "  \"f%d\": @f%d, // {optional: true}\n", j, j)
+					}
+					tb.WriteString("  \"id\": @id\n}")
+					types = append(types, lib.Named{Name: fmt.Sprintf("@f%d", i), Text: tb.String()})
+				}
+				b.WriteString("@f0")
+			}
+			c = Case{Spec: lib.Spec{Schema: b.String(), Types: types}}
+			feature = true
+			run.Label("family:many-type-expansions")
 		case 5: // reference topologies: cycles through optional properties, arrays and alternatives
 			gc := gen.GenRefGraph(t, "rg")
 			if len(gc.G.Missing()) > 0 {
